@@ -3,7 +3,10 @@ package chk
 import (
 	"errors"
 	"fmt"
+	"sync"
 	"testing"
+
+	"github.com/libp2p/go-libp2p/core/peer"
 
 	datatransfer "github.com/filecoin-project/go-data-transfer/v2"
 	"github.com/filecoin-project/go-data-transfer/v2/channels"
@@ -370,5 +373,133 @@ func TestC11Step(t *testing.T) {
 		}
 		cs.Stop(bg)
 		settle()
+	})
+}
+
+// TestC11EarlyPause: the initiator pauses (and later resumes) its channel in the window between
+// opening it and processing the responder's acceptance - the acceptance is on its way, held back by
+// the network. The responder has accepted already and is a full party to the channel: the pause must
+// be applied to the transport and announced to it like any other, and its view must follow.
+func TestC11EarlyPause(t *testing.T) {
+	vf.Run(t, "C11EarlyPause", vf.Opts{Bubble: true, DefaultN: 16}, func(c *vf.Case) {
+		r := c.Rng
+		pull := c.Index%2 == 0
+		peers := gen.Peers(r, 2)
+		A := newMgrFix(c, peers[0], nil)
+		B := newMgrFix(c, peers[1], nil)
+		br := newBridge(A, B)
+		var hmu sync.Mutex
+		holding := true
+		var held []func()
+		hold := func(to *mgrFix, chid datatransfer.ChannelID, msg datatransfer.Message, deliver func()) bool {
+			hmu.Lock()
+			defer hmu.Unlock()
+			if to == A && holding {
+				held = append(held, deliver)
+				return true
+			}
+			return false
+		}
+		br.mu.Lock()
+		br.hold = hold
+		br.mu.Unlock()
+		A.net.SetHold(func(p peer.ID, m datatransfer.Message, deliver func()) bool { return false })
+		B.net.SetHold(func(p peer.ID, m datatransfer.Message, deliver func()) bool {
+			hmu.Lock()
+			defer hmu.Unlock()
+			if holding {
+				held = append(held, deliver)
+				return true
+			}
+			return false
+		})
+		chid, err := A.open(pull, peers[1], gen.Voucher(r, "VT0"), dummyCid)
+		if err != nil {
+			panic(err)
+		}
+		settle()
+		va, vb := A.view(chid), B.view(chid)
+		if va == nil || vb == nil {
+			c.Note("setup: initiator %v responder %v", va, vb)
+			A.stop()
+			B.stop()
+			return
+		}
+		accepted := false
+		for _, e := range A.sub.For(chid) {
+			if e.Code == datatransfer.Accept {
+				accepted = true
+			}
+		}
+		if accepted {
+			c.Note("the acceptance was not held back (status %s)", va.Status)
+		} else {
+			c.Count("pauses_before_acceptance_processed", 1)
+		}
+		check := func(what string, wantIP bool, nnet, ntp int) {
+			announced := false
+			for _, s := range A.net.Sends(nnet) {
+				if m := s.Msg; m != nil && m.IsUpdate() && m.IsRequest() && m.TransferID() == chid.ID && m.IsPaused() == wantIP {
+					announced = true
+				}
+			}
+			for _, tc := range A.tp.CallsFrom(ntp) {
+				if m := tc.Msg; tc.Op == "resume" && m != nil && m.IsUpdate() && m.IsRequest() && m.IsPaused() == wantIP {
+					announced = true
+				}
+			}
+			if !announced {
+				c.Violation("C11", "not-announced "+what, "%s before the acceptance was processed (initiator status %s) was not announced to the responder", what, va.Status)
+			}
+			op := map[bool]string{true: "pause", false: "resume"}[wantIP]
+			if doubles.CountOp(A.tp.CallsFrom(ntp), op, chid) != 1 {
+				c.Violation("C11", "transport-not-told "+what, "%s: transport %s called %d times", what, op, doubles.CountOp(A.tp.CallsFrom(ntp), op, chid))
+			}
+			if v := B.view(chid); v != nil && v.InitiatorPaused != wantIP {
+				c.Violation("C11", "flags-diverge responder after "+what, "responder's view InitiatorPaused=%v after the initiator's %s (initiator status %s)", v.InitiatorPaused, what, va.Status)
+			}
+			if v := A.view(chid); v != nil && v.InitiatorPaused != wantIP {
+				c.Violation("C11", "flags-diverge initiator after "+what, "initiator's own view InitiatorPaused=%v after its %s", v.InitiatorPaused, what)
+			}
+		}
+		nnet, ntp := A.net.Len(), A.tp.Len()
+		if err := A.m.PauseDataTransferChannel(bg, chid); err != nil {
+			c.Violation("C11", "pause-resume-api-error init-pause", "pause before acceptance returned %v", err)
+		}
+		settle()
+		check("init-pause", true, nnet, ntp)
+		resumeEarly := r.Intn(2) == 0
+		if resumeEarly {
+			nnet, ntp = A.net.Len(), A.tp.Len()
+			A.m.ResumeDataTransferChannel(bg, chid)
+			settle()
+			check("init-resume", false, nnet, ntp)
+		}
+		// the acceptance arrives
+		hmu.Lock()
+		holding = false
+		hs := held
+		held = nil
+		hmu.Unlock()
+		for _, d := range hs {
+			d()
+		}
+		settle()
+		for _, side := range []*mgrFix{A, B} {
+			if v := side.view(chid); v != nil && v.InitiatorPaused == resumeEarly {
+				c.Violation("C11", "flags-diverge after acceptance", "after the acceptance arrived a view shows InitiatorPaused=%v, the initiator's last action says %v", v.InitiatorPaused, !resumeEarly)
+			}
+		}
+		c.Mark("pull=%v resumeEarly=%v accepted=%v", pull, resumeEarly, accepted)
+		c.NonTrivial()
+		if c.Index < 2 {
+			c.Sample(map[string]any{"engine": "pause before the acceptance is processed", "pull": pull, "initiator_status_at_pause": va.Status.String(), "responder_status_at_pause": vb.Status.String()})
+		}
+		for _, side := range []*mgrFix{A, B} {
+			side.m.CloseDataTransferChannel(bg, chid)
+		}
+		settle()
+		A.stop()
+		B.stop()
 	})
 }
